@@ -12,9 +12,20 @@ MANIFEST = dict(
          'method exposed, and then replies and mutates exactly like the same method on a local list/dict/Value '
          '(error cases included), nothing else changes; any request sequence from any (misbehaving) clients keeps '
          'the tables consistent (counts >= 1, unknown/zero idents refused); a failed handshake reads no request and '
-         'changes nothing. Tie: Server.incref/decref/create arithmetic and the try/except skeletons of '
+         'changes nothing. User level (all histories of create / copy / inherit / drop / call operations in which no '
+         'step loses a reference): nothing stays in progress, refcount = live proxies, in the table iff a live proxy '
+         'exists, tables as new once every proxy is released; the two excluded steps (result proxy through a proxy '
+         'without manager -- the known defect; a holder that vanishes without a decref: killed client) are the exact '
+         'boundary, each leaves a referent for ever. Over all request-grain histories of any number of clients the '
+         'observations made through the proxies of one referent are those of ONE local object given the same calls in '
+         'the same order (no call lost, duplicated, misrouted; value never reset). '
+         'Tie: Server.incref/decref/create arithmetic and the try/except skeletons of '
          'serve_client/handle_request are regenerated from managers.py on every run and proved to compute the '
-         'model; exposed sets come from the real Server.create. Correspondence: real Server in-process with scripted '
+         'model; exposed sets come from the real Server.create; every table access of incref/decref/create is '
+         'inside `with self.mutex:` (structural fact of the source, also monitored on the running Server). '
+         'Concurrency: real client processes and threads hammer one referent through its proxy (list, dict, Value '
+         'under a manager Lock, Queue, copies/drops), judged by atomicity / lost-update / refcount monitors. '
+         'Correspondence: real Server in-process with scripted '
          'connections, real proxies against the real server threads (explicit proxy classes and an AutoProxy typeid, '
          'copies by pickling, proxies rebuilt as in a spawn/forkserver child), real spawn scenarios and (thorough) real '
          'manager and client processes; the refcount equation is also monitored on fork/spawn/forkserver histories '
@@ -392,7 +403,7 @@ def correspond_server(res, n):
     executed = 0
     for c, o in zip(cases, outs):
         ex = 0
-        for cn, ob in zip(c, o):
+        for j, (cn, ob) in enumerate(zip(c, o)):
             hist['hs:' + cn['hs']] = hist.get('hs:' + cn['hs'], 0) + 1
             hist['req:' + cn['req'][0]] = hist.get('req:' + cn['req'][0], 0) + 1
             for r in ob['outs']:
@@ -400,6 +411,13 @@ def correspond_server(res, n):
                 hist['reply:' + k] = hist.get('reply:' + k, 0) + 1
                 if r[0] in ('ret', 'err', 'proxy'):
                     ex += 1
+            if ob.get('unlocked'):
+                res.alarms.append(dict(signature='C20:table-update-without-mutex',
+                                       what='the real Server changed its tables without holding Server.mutex '
+                                            '(table, operation, function): %s on request %s -- the lock is what makes '
+                                            'one incref / decref / create atomic among the serving threads'
+                                            % (json.dumps(ob['unlocked'][:4]), json.dumps(cn['req'])[:200]),
+                                       replay=dict(mode='server', case=c[:j + 1])))
             if not ob['order_ok']:
                 res.alarms.append(dict(signature='C20:request-read-before-handshake',
                                        what='Server.handle_request read a request before the handshake completed',
@@ -462,6 +480,8 @@ def chop(op, newid):
         return '(H_stale %s %s)' % (cz(op[1]), cz(op[2]))
     if k == 'drop':
         return '(H_drop %s)' % cnat(op[1])
+    if k == 'vanish':
+        return '(H_vanish %s)' % cnat(op[1])
     if k == 'call':
         return '(H_call %s %s %s %s)' % (cnat(op[1]), METH[op[2]], clist(op[3], carg), cz(newid))
     raise ValueError(op)
@@ -474,7 +494,7 @@ def ccobs(op, o):
         return 'CO_noop'
     if kind == 'create':
         return {'ok': 'CO_ok'}.get(k) or ('(CO_reply (R_traceback %s))' % cexn(o[1]) if k == 'fail' else 'CO_lost')
-    if kind in ('copy', 'inherit', 'spawn', 'stale', 'drop', 'batch'):
+    if kind in ('copy', 'inherit', 'spawn', 'stale', 'drop', 'vanish', 'batch', 'kill'):
         return {'ok': 'CO_ok'}.get(k) or ('(CO_fail %s)' % cexn(o[1]) if k == 'fail' else 'CO_lost')
     if k == 'ret':
         return '(CO_reply (R_return %s))' % cval(o[1])
@@ -535,6 +555,11 @@ def gen_client_case(rng):
         elif r < 0.57:
             case.append(['stale', rng.randint(10, 13), rng.randint(0, 6)])
             kinds.append(('list', False))      # only if the ident is still live; indices may drift
+        elif r < 0.60:
+            k = rng.randint(0, n)              # the holder vanishes without a decref
+            case.append(['vanish', k])
+            if k < n:
+                kinds.pop(k)
         else:
             k = rng.randint(0, n) if rng.random() < 0.1 else rng.randint(0, n - 1)
             kind = kinds[k][0] if k < n else 'list'
@@ -580,6 +605,12 @@ BOUNDARY_CLIENT.append(
     [['create', 10, 'AList', [['l', [1, 2]]]], ['inherit', 0, 11], ['drop', 0], ['call', 0, 'append', [['z', 3]]],
      ['call', 0, 'copy', []], ['copy', 0, 12], ['inherit', 1, 13], ['drop', 0], ['call', 1, 'pop', []],
      ['call', 0, '__len__', []], ['drop', 1], ['call', 0, 'clear', []], ['call', 0, '#GETVALUE', []], ['drop', 0]])
+# holders that vanish without a decref (finalised while the manager is not STARTED / with a connection
+# that fails): the server is not told, the count stays, the referent survives every later drop
+BOUNDARY_CLIENT.append(
+    [['create', 10, 'list', [['l', [1]]]], ['copy', 0, 11], ['vanish', 1], ['call', 0, 'append', [['z', 2]]],
+     ['drop', 0], ['stale', 12, 1], ['call', 0, '__len__', []], ['drop', 0],
+     ['create', 10, 'dict', [['d', [[1, 2]]]]], ['vanish', 0], ['vanish', 0]])
 # a proxy-returning method through a proxy that was passed on (unpickled): AttributeError + leak
 LEAK_CASE = [['create', 10, 'Shelf', [['l', [7]]]], ['copy', 0, 11], ['call', 1, 'clone', []],
              ['drop', 1], ['drop', 0]]
@@ -620,6 +651,11 @@ def correspond_client(res, n):
         code = codes.get(i, 0)
         rp = dict(mode='client', case=c, impl=o)
         fin = o[-1]
+        if fin.get('unlocked'):
+            res.alarms.append(dict(signature='C20:table-update-without-mutex',
+                                   what='the real server threads changed the tables without holding Server.mutex '
+                                        '(table, operation, function): %s in %s'
+                                        % (json.dumps(fin['unlocked'][:4]), json.dumps(c)[:300]), replay=rp))
         if code == 2:
             res.alarms.append(dict(signature='C20:client-differs-from-model',
                                    what='real proxies / real server (results, exceptions, table, refcounts) differ '
@@ -634,10 +670,14 @@ def correspond_client(res, n):
         elif code:
             res.broken.append(dict(kind='correspondence', name='Manager.check_client_case code %d' % code,
                                    detail=json.dumps(rp)[:1500]))
-        elif fin['final_objects'] or fin['final_refcounts']:
-            res.alarms.append(dict(signature='C20:referent-survives-all-proxies',
-                                   what='%d referents left in the server after every proxy was dropped: %s'
-                                        % (fin['final_objects'], json.dumps(c)[:500]), replay=rp))
+        elif fin['final_objects'] != fin.get('expected_leaked', 0) or \
+                fin['final_refcounts'] != fin.get('expected_leaked', 0):
+            res.alarms.append(dict(signature='C20:referent-survives-all-proxies' if fin['final_objects'] >
+                                   fin.get('expected_leaked', 0) else 'C20:referent-disposed-while-proxy-lives',
+                                   what='%d referents left in the server after every proxy was dropped (%d are held '
+                                        'by holders that vanished without a decref): %s'
+                                        % (fin['final_objects'], fin.get('expected_leaked', 0), json.dumps(c)[:500]),
+                                   replay=rp))
     k0 = len(corpus)
     res.add_cov(evaluations=len(cases), distinct=len(nontrivial), traces=len(cases),
                 samples=[dict(case=c, impl=o) for c, o in list(zip(cases, outs))[k0:k0 + 1]]
@@ -690,7 +730,7 @@ def gen_procs_case(rng):
             forked.append(pid)
         elif r < 0.62 and forked:
             pid = forked.pop(rng.randrange(len(forked)))
-            case.append(['exit', pid])
+            case.append([rng.choice(['exit', 'exit', 'kill']), pid])
             keep = [i for i in range(n) if owners[i] != pid]
             owners[:] = [owners[i] for i in keep]
             kinds[:] = [kinds[i] for i in keep]
@@ -753,6 +793,14 @@ BOUNDARY_PROCS.append([['create', 10, 'AList', [['l', [4]]]], ['create', 10, 'li
                        ['call', 0, 'copy', []], ['call', 1, '__len__', []], ['drop', 0], ['drop', 0]])
 
 
+# a client process killed (SIGKILL) while it holds proxies: the server is not told, the counts stay,
+# the referent survives the parent's drop (C20_vanished_holder_never_released; the model follows the code)
+KILL_CASE = [['create', 10, 'list', [['l', [1, 2]]]], ['create', 10, 'dict', [['d', [[1, 2]]]]], ['fork', 13],
+             ['call', 2, 'append', [['z', 3]]], ['copy', 3, 11], ['kill', 13], ['call', 0, '__len__', []],
+             ['drop', 0], ['drop', 0], ['exit', 11]]
+BOUNDARY_PROCS.append(KILL_CASE)
+
+
 def procs_to_model(case, outs):
     """fork / exit / intruder become batches of model operations (owners come from the driver)"""
     mcase = []
@@ -762,6 +810,8 @@ def procs_to_model(case, outs):
             mcase.append(['batch', [['copy', k, op[1]] for k, w in enumerate(owners) if w == 10]])
         elif op[0] == 'exit':
             mcase.append(['batch', [['drop', k] for k in reversed(range(len(owners))) if owners[k] == op[1]]])
+        elif op[0] == 'kill':       # SIGKILL: every proxy of that process vanishes without a decref
+            mcase.append(['batch', [['vanish', k] for k in reversed(range(len(owners))) if owners[k] == op[1]]])
         elif op[0] == 'intruder':
             mcase.append(['batch', []])
         else:
@@ -804,10 +854,12 @@ def correspond_procs(res, n, only=None):
         elif code:
             res.broken.append(dict(kind='correspondence', name='real processes: check_client_case code %d' % code,
                                    detail=json.dumps(rp)[:1500]))
-        elif o[-1]['final_objects']:
-            res.alarms.append(dict(signature='C20:referent-survives-all-proxies',
-                                   what='(real processes) %d referents left after every proxy was released'
-                                        % o[-1]['final_objects'], replay=rp))
+        elif o[-1]['final_objects'] != o[-1].get('expected_leaked', 0):
+            res.alarms.append(dict(signature='C20:referent-survives-all-proxies' if o[-1]['final_objects'] >
+                                   o[-1].get('expected_leaked', 0) else 'C20:referent-disposed-while-proxy-lives',
+                                   what='(real processes) %d referents left after every proxy was released '
+                                        '(%d are held by killed processes)'
+                                        % (o[-1]['final_objects'], o[-1].get('expected_leaked', 0)), replay=rp))
     res.add_cov(evaluations=len(cases), distinct=len({json.dumps(c) for c in cases}), traces=len(cases),
                 rule='real processes: a real manager server process, two pre-started client processes and up to two '
                      'forked with live proxies; proxies passed by pickling, dropped in random orders, orderly '
@@ -1000,7 +1052,7 @@ def run(res):
     late = correspond_server(res, n)
     late += correspond_client(res, 40 if res.tier == 'quick' and not res.broken else min(n // 3, 800))
     late += correspond_procs(res, 25) if res.tier != 'quick' else \
-        correspond_procs(res, 0, only=[SPAWN_CASE, SPAWN_AUTO_CASE])
+        correspond_procs(res, 0, only=[SPAWN_CASE, SPAWN_AUTO_CASE, KILL_CASE])
     correspond_life(res)
     # a history on which the statement itself fails (a referent outliving every proxy / disposed
     # under a live proxy) is reported before the differences from the model that accompany it;
@@ -1018,7 +1070,10 @@ def run(res):
     res.alarms += [best[k][1] for k in sorted(best)]
     res.assumptions += [
         'requests are interleaved at request grain: one Server method call / one serve_client iteration is atomic '
-        '(rests on the GIL, the RLock in create/incref/decref and C-level container methods; not modelled)',
+        '(rests on the GIL, the RLock in create/incref/decref -- its presence around every table access is a checked '
+        'structural fact, C20_code_mutex, and monitored on the running Server -- and C-level container methods; the '
+        'interleaving itself is not modelled: atomicity of single operations under truly concurrent clients is '
+        'TESTED by the concurrent scenarios (monitors on real processes / threads), not proved)',
         'id(obj) of a new referent is non-zero and differs from the idents of live referents (CPython addresses)',
         'referents: list, dict (int keys/values), managers.Value, list iterators, a harness list subclass with '
         'proxy-returning methods and a list registered without proxy type (AutoProxy class); a subset of their '
@@ -1028,7 +1083,10 @@ def run(res):
         'compared with a local twin; Pool and AsyncResult only through the generic theorems',
         'pickling of requests/replies, finaliser timing (CPython refcounting runs BaseProxy._decref at the last '
         'reference), socket transport and the HMAC itself (C18) are outside the model',
-        'a client process that is killed never releases its proxies (no theorem claims otherwise)',
+        'a holder that disappears without a decref (client killed, BaseProxy._decref skipped or its connection '
+        'failing) leaves its reference counted for ever: modelled (H_vanish), proved (C20_vanished_holder_never_released) '
+        'and observed on the real code (SIGKILLed child, finalisation while the manager is not STARTED); the positive '
+        'disposal theorem excludes such steps',
     ]
 
 
@@ -1064,15 +1122,24 @@ def replay(path):
         bad_order = [o for o in out if not o.get('order_ok', True)]
         if bad_order:
             print('a request was read before the handshake completed')
+        unl = [o['unlocked'] for o in out if o.get('unlocked')]
+        if unl:
+            print('tables changed without holding Server.mutex (table, operation, function):', json.dumps(unl[0]))
+            bad_order = bad_order or unl
     elif rp['mode'] == 'client':
         codes, _ = core.coq_eval('C20r', CHEADER, [[client_case_term(c, out[:-1])]])
         print('   after dropping every proxy:', out[-1])
-        bad_order = []
+        bad_order = out[-1].get('unlocked') or []
+        if bad_order:
+            print('tables changed without holding Server.mutex (table, operation, function):', json.dumps(bad_order))
     else:
         codes, _ = core.coq_eval('C20r', CHEADER, [[client_case_term(procs_to_model(c, out[:-1]), out[:-1])]])
         print('   after every process released its proxies:', out[-1])
         bad_order = []
     code = codes[0][1] if codes else 0
+    if code == 0 and bad_order:
+        print('model and implementation agree on replies and tables, but a monitor on the implementation failed (above)')
+        return 1
     print({0: 'model and implementation agree, monitors satisfied',
            1: 'input outside the model',
            2: 'implementation differs from the proved model',
